@@ -328,7 +328,7 @@ func c14Check(w *sup.W, t c14Text, layout int) {
 		return
 	}
 	if t.want != "" {
-		w.Class("parsed-as-denoted")
+		w.Class("parsed-as-denoted:" + t.kind)
 		w.NontrivialByIndex()
 		if w.WantSample(t.label) {
 			w.Sample(t.label, map[string]string{"text": text, "parsed": got})
